@@ -55,32 +55,50 @@ def baseLoop (orc : Slow) : Nat → Bytes → Buf → Res (Nat × Bytes × Buf)
     | some x => .ok (x, s, b)
     | none => baseLoop orc fuel s b
 
+/-- the head of one ziggurat round, from the 32 random bits `ju`:
+    `j = ju & 0x7fffffff; sign = ju >> 31; i = j & 0x7F; x = float64(j) * float64(wn[i])` and the
+    fast-path test `uint32(j) < kn[i]`; returns `(x, sign, i, fast)` -/
+def zigHead (ju : Nat) : Nat × Nat × Nat × Bool :=
+  let j := u64and ju 0x7fffffff
+  let i := u64and j 0x7f
+  (SF.mul (SF.ofNat j) (SF.ofBits32 (Zig.wn.getD i 0)), u64shr ju 31, i, decide (j < Zig.kn.getD i 0))
+
 /-- `normFloat64()`: `(|x|, sign, slow?, stream, buffer)`; `slow` is sticky -/
 def normF (orc : Slow) : Nat → Bool → Bytes → Buf → Res (Nat × Nat × Bool × Bytes × Buf)
   | 0, _, _, _ => .exhausted
   | fuel + 1, slow, s, b =>
     randU32 s b >>= fun (ju, s, b) =>
-    let j := u64and ju 0x7fffffff
-    let sign := u64shr ju 31
-    let i := u64and j 0x7f
-    let x := SF.mul (SF.ofNat j) (SF.ofBits32 (Zig.wn.getD i 0))
-    if j < Zig.kn.getD i 0 then .ok (x, sign, slow, s, b)
-    else if i = 0 then
-      baseLoop orc fuel s b >>= fun (x, s, b) => .ok (x, sign, true, s, b)
+    let z := zigHead ju
+    if z.2.2.2 then .ok (z.1, z.2.1, slow, s, b)
+    else if z.2.2.1 = 0 then
+      baseLoop orc fuel s b >>= fun (x, s, b) => .ok (x, z.2.1, true, s, b)
     else
       randU53 s b >>= fun (u, s, b) =>
-      if orc.wedge i x u then .ok (x, sign, true, s, b) else normF orc fuel true s b
+      if orc.wedge z.2.2.1 z.1 u then .ok (z.1, z.2.1, true, s, b) else normF orc fuel true s b
 
-/-- small path, one coefficient:
-    `for { norm, sign = normFloat64(); if v := norm*sigma; v <= bound { coeffInt = uint64(v+0.5); break } }` -/
-def gaussCoeff (orc : Slow) (sigma bound : Nat) : Nat → Bool → Bytes → Buf →
-    Res ((Nat × Nat) × Bool × Bytes × Buf)
+/-- `for { candidate; if accepted { break } }`: repeat `step` until it yields a value -/
+def retry {α : Type} (step : Bool → Bytes → Buf → Res (Option α × Bool × Bytes × Buf)) :
+    Nat → Bool → Bytes → Buf → Res (α × Bool × Bytes × Buf)
   | 0, _, _, _ => .exhausted
   | fuel + 1, slow, s, b =>
-    normF orc (fuel + 1) slow s b >>= fun (norm, sign, slow, s, b) =>
-    let v := SF.mul norm sigma
-    if v ≤ bound then .ok ((SF.trunc (SF.add v SF.half) % W, sign), slow, s, b)
-    else gaussCoeff orc sigma bound fuel slow s b
+    step slow s b >>= fun (r, slow, s, b) =>
+    match r with
+    | some a => .ok (a, slow, s, b)
+    | none => retry step fuel slow s b
+
+/-- small path, one candidate: `norm, sign = normFloat64(); if v := norm*sigma; v <= bound
+    { coeffInt = uint64(v+0.5); break }` -/
+def smallStep (orc : Slow) (sigma bound : Nat) (fuel : Nat) (slow : Bool) (s : Bytes) (b : Buf) :
+    Res (Option (Nat × Nat) × Bool × Bytes × Buf) :=
+  -- `r = (norm, sign, slow, stream, buffer)`
+  normF orc fuel slow s b >>= fun r =>
+  .ok (if SF.mul r.1 sigma ≤ bound then some (SF.trunc (SF.add (SF.mul r.1 sigma) SF.half) % W, r.2.1)
+       else none, r.2.2)
+
+/-- small path, one coefficient `(coeffInt, sign)` -/
+def gaussCoeff (orc : Slow) (sigma bound : Nat) (fuel : Nat) :
+    Bool → Bytes → Buf → Res ((Nat × Nat) × Bool × Bytes × Buf) :=
+  retry (smallStep orc sigma bound fuel) fuel
 
 /-- `crypto/rand.Int(reader, max)` for `max > 0` (go1.23): rejection on `k` bytes, big endian,
     top byte masked; reads from the PRNG directly (NOT through the sampler's buffer) -/
@@ -99,23 +117,30 @@ def randInt (fuel : Nat) (max : Nat) (s : Bytes) : Res (Nat × Bytes) :=
     let b := if bl % 8 = 0 then 8 else bl % 8
     randIntLoop max ((bl + 7) / 8) (2 ^ b - 1) fuel s
 
+/-- big-number path: the candidate signed integer built from one normal draw -/
+def bigCand (fuel : Nat) (sigma : Nat) (norm sign : Nat) (s : Bytes) : Res (Int × Bytes) :=
+  -- `normFlo.SetFloat64(norm*sigma + 0.5); normFlo.Int(normInt)`
+  let normInt := SF.trunc (SF.add (SF.mul norm sigma) SF.half)
+  -- `normIntLowBits.Rsh(normInt, 53)`
+  let low := normInt / 9007199254740992
+  -- `if normIntLowBits > 0 { normInt.Add(normInt, bignum.RandInt(g.prng, normIntLowBits)) }`
+  (if low > 0 then randInt fuel low s >>= fun r => .ok (normInt + r.1, r.2)
+    else .ok (normInt, s)) >>= fun r =>
+  -- `normInt.Mul(normInt, 2*sign-1)`
+  .ok ((r.1 : Int) * (2 * (sign : Int) - 1), r.2)
+
+/-- big-number path, one candidate; accepted when `normInt.CmpAbs(boundInt) < 1` -/
+def bigStep (orc : Slow) (sigma : Nat) (boundInt : Int) (fuel : Nat) (slow : Bool) (s : Bytes) (b : Buf) :
+    Res (Option Int × Bool × Bytes × Buf) :=
+  -- `r = (norm, sign, slow, stream, buffer)`, `c = (normInt, stream)`
+  normF orc fuel slow s b >>= fun r =>
+  bigCand fuel sigma r.1 r.2.1 r.2.2.2.1 >>= fun c =>
+  .ok (if (c.1.natAbs : Int) ≤ boundInt then some c.1 else none, r.2.2.1, c.2, r.2.2.2.2)
+
 /-- big-number path, one coefficient: the signed integer `normInt` -/
-def gaussCoeffBig (orc : Slow) (sigma : Nat) (boundInt : Int) : Nat → Bool → Bytes → Buf →
-    Res (Int × Bool × Bytes × Buf)
-  | 0, _, _, _ => .exhausted
-  | fuel + 1, slow, s, b =>
-    normF orc (fuel + 1) slow s b >>= fun (norm, sign, slow, s, b) =>
-    -- `normFlo.SetFloat64(norm*sigma + 0.5); normFlo.Int(normInt)`
-    let normInt := SF.trunc (SF.add (SF.mul norm sigma) SF.half)
-    -- `normIntLowBits.Rsh(normInt, 53)`
-    let low := normInt / 2 ^ 53
-    (if low > 0 then
-        randInt (fuel + 1) low s >>= fun (r, s) => .ok (normInt + r, s)
-      else .ok (normInt, s)) >>= fun (normInt, s) =>
-    -- `normInt.Mul(normInt, 2*sign-1)`
-    let x : Int := (normInt : Int) * (2 * (sign : Int) - 1)
-    -- `if normInt.CmpAbs(boundInt) < 1 { break }`
-    if (x.natAbs : Int) ≤ boundInt then .ok (x, slow, s, b) else gaussCoeffBig orc sigma boundInt fuel slow s b
+def gaussCoeffBig (orc : Slow) (sigma : Nat) (boundInt : Int) (fuel : Nat) :
+    Bool → Bytes → Buf → Res (Int × Bool × Bytes × Buf) :=
+  retry (bigStep orc sigma boundInt fuel) fuel
 
 /-- `n` coefficients with `step` -/
 def gaussVec {α : Type} (step : Bool → Bytes → Buf → Res (α × Bool × Bytes × Buf)) :
